@@ -68,6 +68,7 @@ fn main() {
                 seed: num("seed", 1),
                 timeout_ms: num("timeout-ms", 5000),
                 op_sleep_us: num("op-sleep-us", 0),
+                churn: kv.contains_key("churn"),
             };
             match steer::run(&kv["in"], &kv["out"], opts) {
                 Ok(c) => c,
